@@ -26,7 +26,8 @@ CLAIMS = {
          "runs enumerated and replayed; error lists of corpus/generated/noisy/limit/look-ahead traces compared as (line, column, kind, ordered expected list, quoted "
          "text) in both modes; re-used parser/matcher pass.", "TLC model checking + spec->code replay + code->spec trace validation"),
  "C18": ("model_checking", "P_C18_Accepted / P_C18_Partition model-checked over a look-ahead-heavy menu (tag/comment/blank runs before "
-         "Examples/Scenario/Rule); delivered tokens of every trace compared one by one (line, type, fields) with the specification's.",
+         "Examples/Scenario/Rule); the small-step parser (ParserL0: queue discipline Inv_Fifo, Inv_Partition and the step properties Prop_AppendOnly, "
+         "Prop_ScannerForward, Prop_LookAheadPure, Prop_Requeue, Prop_ErrorStays on every transition) with every enumerated kind sequence replayed through Parser.parse; delivered tokens of every trace compared one by one (line, type, fields) with the specification's.",
          "TLC model checking + spec->code replay + code->spec trace validation"),
 
  "C02": ("model_checking", "Parser table DERIVED in TLA+ from gherkin.berp (transcription checked against the file) with structural ASSUMEs (determinism, stack discipline); "
